@@ -398,7 +398,16 @@ def run(model: Model, rep: Report) -> None:
 
 
 def _assembly(model: Model, rep: Report, fo: Folder) -> None:
-    r5 = rep.rule("C01-R5", "PAIR", "array/dict/proc assembly by balanced keywords; null and R handling", 8)
+    r5 = rep.rule("C01-R5", "PAIR", "array/dict/proc assembly by balanced keywords; null and R handling", 9)
+    from ..util import guard_conjuncts as _gc01
+
+    _dk = model.func("pdfminer.pdfparser.PDFParser.do_keyword")
+    _pushes = [c for c in walk_no_nested(_dk.node) if isinstance(c, ast.Call) and (dotted(c.func) or "") == "self.push" and "PDFObjRef" in unparse(c) or (isinstance(c, ast.Call) and (dotted(c.func) or "") == "self.push" and any(isinstance(a, ast.Name) and a.id == "obj" for t in c.args for a in ast.walk(t)) and "KEYWORD_R" in "".join(_gc01(_dk, c)))]
+    if not _pushes:
+        raise AnchorMissing("PDFParser.do_keyword: push of the indirect reference not found")
+    for c in _pushes:
+        extra = sorted(x for x in _gc01(_dk, c) if not any(k in x for k in ("KEYWORD_", "len(self.curstack)", "object_id")))
+        r5.check(not extra, site(_dk, c), _dk.qualname, "`n g R` becomes a reference whenever n is an integer - whatever the generation number is", why=f"the reference is pushed only under {extra}: a conformant reference that fails it (12 3 R) pops its two integers and pushes nothing, so the array or dictionary around it loses an element and pairs keys with the wrong values")
     mod = model.module("pdfminer.psparser")
     no = model.func(PS + "PSStackParser.nextobject")
     pairs = {"ARRAY": (b"[", b"]"), "DICT": (b"<<", b">>"), "PROC": (b"{", b"}")}
